@@ -23,7 +23,11 @@ RULE = ("part included_at: component repo = one release branch, 1-10 commits in 
         "and cyclic graphs, references to repositories that are not supplied) in generated supply order. Non-trivial = a "
         "parent build whose pin crosses >=2 report-related component builds, or a branch forking below a pin change, or a pin "
         "to a component build without matching commit; distinct by case hash."
-        " Also: 0-3 earlier reports on the same collection object; either line of a component merge as first parent.")
+        " Also: 0-3 earlier reports on the same collection object; either line of a component merge as first parent."
+        " Part time_spread (metamorphic, no model): a middle repository with 1-4 branches (most commits built, own matching commits) and an app whose "
+        "pins walk along one root-to-head path of it; the same history is reported once with all commit times inside an hour and once spread "
+        "over up to 20 days (parents before children, every app commit later than the build it pins); reported builds and included_at of both "
+        "repositories must be identical. Non-trivial there = some middle build is shipped by an app build and the middle history is longer than a day.")
 ASSUMPTIONS = [
     "more than 400k (report) / 20k (dependency analysis) Python calls inside ak/ghist.py for these tiny inputs is a divergence (normal runs need a few thousand)",
     "the component has a single branch; the set of report-related component builds is read from the component's own report (its placement rules are C06's property); with merge commits in the parent (part included_at_parent_merges) 'the first build' is read as: every build of the branch that ships the component build while none of its ancestor builds does",
@@ -31,6 +35,7 @@ ASSUMPTIONS = [
     "builds are detected by build tags (the default detector). RepoBuildsBySavedBuildNumDetector is documented as a best guess; on the unchanged tree it labels an unbuilt head with the last saved version and records it as shipped by the parent build that pins that version, so C07 is not claimed for it (case['comp_detect'] = 'saved' exists for experiments, it is never generated)",
     "a parent build commit carries one build tag: which of several numbers names a multiply tagged parent build is not part of the statement",
     "at most one build tag per commit; commit times: component first, parent later (inside the 1-day / 30-day windows)",
+    "part time_spread: both time assignments are inside the windows (span <= 20 days < the 30-day branch window; an app commit older than the earliest report-related middle build minus one day can only pin a build without report-related content); several component branches are allowed there because no reading of 'contains' is needed for the comparison",
     "included_at entries are compared as multisets of (parent repo, parent branch, shown build number)",
 ]
 
@@ -177,6 +182,8 @@ def compare_level(f, tag, seen_builds, K, incl, must_report, prg, ctx):
 def evaluate(case):
     if "graph" in case:
         return eval_graph(case)
+    if case.get("time_spread"):
+        return eval_time_spread(case)
     import logging
     import ak.ghist as G
     from vlib import core as _core
@@ -521,6 +528,140 @@ def st_case(draw, merges=False):
     return case
 
 
+# ---------------------------------------------------------------------------
+# metamorphic: commit times packed into minutes vs spread over days (inside the windows)
+# ---------------------------------------------------------------------------
+
+DAY = 86400
+
+
+def spread_times(case):
+    """-> (times of the middle repository's commits, times of app's commits): parents before children, at most 20 days in
+    all (the 30-day window for old branches is never reached), every app commit later than the build it pins"""
+    pcs = case["parent"]["commits"]
+    steps = case["steps"]
+    tm = []
+    for i, c in enumerate(pcs):
+        base = max([tm[p] for p in c["parents"]], default=5000)
+        tm.append(min(base + 10 + steps[i % len(steps)], 5000 + 20 * DAY + i * 10))
+    label_idx = {parent_label(c): i for i, c in enumerate(pcs) if c.get("tag") is not None}
+    ta = []
+    for i, c in enumerate(case["app"]["commits"]):
+        ta.append(max(ta[-1] + 10 if ta else 0, tm[label_idx[c["pin"]]] + 5))
+    return tm, ta
+
+
+def eval_time_spread(case):
+    import logging
+    import ak.ghist as G
+    from vlib import core as _core
+    if not _core.debug_logs_active():
+        logging.getLogger("ak.ghist").setLevel(logging.ERROR)
+    ctx = f"middle={[(i, c['parents'], c['match'], c.get('tag'), c.get('tag_branch')) for i, c in enumerate(case['parent']['commits'])]!r} " \
+          f"branches={case['parent']['branches']!r} app={[(c['match'], c['pin'], c.get('tag')) for c in case['app']['commits']]!r}"
+    tm, ta = spread_times(case)
+    ctx += f" spread times: middle={[round((t - 5000) / DAY, 2) for t in tm]} days, app={[round((t - 5000) / DAY, 2) for t in ta]} days"
+    results = []
+    for spread in (False, True):
+        ms = parent_spec(case)
+        for c in ms["commits"]:
+            c["files"] = {"VERSION": "7.1"}
+        as_ = app_spec(case)
+        if spread:
+            for c, t in zip(ms["commits"], tm):
+                c["ts"] = t
+            for c, t in zip(as_["commits"], ta):
+                c["ts"] = t
+        MainCls = fakegit.make_project_repo_class(G, name="MainRepo")
+        AppCls = fakegit.make_project_repo_class(G, {"main": "DEPS.txt"}, name="AppRepo")
+        repos = {"main": MainCls("main", fakegit.FakeRepo(ms), "origin"), "app": AppCls("app", fakegit.FakeRepo(as_), "origin")}
+        if case.get("order_rot"):
+            repos = {k: repos[k] for k in ("app", "main")}
+        try:
+            with call_budget(600000, "ak/ghist.py"):
+                data = dict(G.ReposCollection(repos).make_reports_data(case["search"]))
+        except Diverged as e:
+            return Outcome(True, [], [("report_diverges", f"{e}; {ctx}")])
+        except Exception as e:   # noqa
+            import traceback
+            where = traceback.extract_tb(e.__traceback__)[-1].name
+            return Outcome(True, [], [("report_raises_%s_in_%s" % (type(e).__name__, where), f"{e}; {ctx}")])
+        summary = {}
+        for rid in ("main", "app"):
+            for rb in data[rid].branches:
+                summary[rid + ":" + str(rb.branch_name)] = [
+                    [None if b.rcommit is None else b.rcommit.commit.idx,
+                     "not built" if b.build_num.is_fake_not_built() else str(b.build_num),
+                     sorted((str(r), str(br), "not built" if bn.is_fake_not_built() else str(bn)) for r, br, bn in b.included_at)]
+                    for b in rb.get_rbuilds_list()]
+        results.append(summary)
+    f = []
+    packed, spread_ = results
+    if packed != spread_:
+        key = next((k for k in sorted(set(packed) | set(spread_)) if packed.get(k) != spread_.get(k)))
+        kind = "included_at_depends_on_commit_times" if key.startswith("main:") else "reported_parent_builds_depend_on_commit_times"
+        f.append((kind, f"{key}: with all times inside one hour {packed.get(key)!r}, with the same history spread over days "
+                        f"{spread_.get(key)!r}; {ctx}"))
+    classes = {"time_spread"}
+    rel = sum(1 for v in packed.values() for b in v if b[2])
+    if rel:
+        classes.add("middle_builds_shipped_by_app")
+    if len(case["parent"]["branches"]) >= 2:
+        classes.add("several_middle_branches")
+    if max(tm) - min(tm) > DAY:
+        classes.add("middle_history_longer_than_a_day")
+    return Outcome(rel > 0 and max(tm) - min(tm) > DAY, sorted(classes), f[:2])
+
+
+@st.composite
+def st_time_spread(draw):
+    case = draw(st_case())
+    case.pop("app", None)
+    case.pop("comp2", None)
+    pcs = case["parent"]["commits"]
+    # most commits of the middle repository are builds here
+    nums = iter(range(400, 500))
+    names = sorted(case["parent"]["branches"])
+    for c in pcs:
+        if c.get("tag") is None and draw(st.integers(0, 2)) > 0:
+            c["tag"] = next(nums)
+            c["tag_branch"] = draw(st.sampled_from(names))
+        c["match"] = c["match"] or draw(st.integers(0, 2)) == 0
+    parents = [c["parents"] for c in pcs]
+    anc = fakegit.ancestors_or_self(parents)
+    # app pins builds found on one path from the root to a branch head, oldest first (a pin never goes backwards)
+    head = case["parent"]["branches"][draw(st.sampled_from(names))]
+    path = sorted(i for i in anc[head] if pcs[i].get("tag") is not None)
+    chain = []
+    for i in path:
+        if not chain or chain[-1] in anc[i]:
+            chain.append(i)
+    if not chain:
+        pcs[head]["tag"] = next(nums)
+        pcs[head]["tag_branch"] = names[0]
+        chain = [head]
+    labels = {}
+    for i in chain:
+        labels.setdefault(parent_label(pcs[i]), i)
+    chain = [i for i in chain if labels[parent_label(pcs[i])] == i]
+    # labels must name one commit each
+    all_labels = [parent_label(c) for c in pcs if c.get("tag") is not None]
+    chain = [i for i in chain if all_labels.count(parent_label(pcs[i])) == 1] or None
+    if chain is None:
+        return None
+    acommits = []
+    li = 0
+    tagn = iter(range(700, 800))
+    for i in range(draw(st.integers(1, 5))):
+        li = draw(st.integers(li, len(chain) - 1))
+        acommits.append({"parents": [i - 1] if i else [], "match": draw(st.integers(0, 3)) == 0, "pin": parent_label(pcs[chain[li]]),
+                         "tag": next(tagn) if draw(st.integers(0, 3)) > 0 else None, "tag_branch": "release/3.0"})
+    case["app"] = {"commits": acommits, "branches": {"release/3.0": len(acommits) - 1}}
+    case["steps"] = draw(st.lists(st.sampled_from([0, 0, 3600, DAY // 2, 2 * DAY, 2 * DAY, 5 * DAY, 9 * DAY]), min_size=3, max_size=9))
+    case["time_spread"] = True
+    return case
+
+
 @st.composite
 def st_graph(draw):
     n = draw(st.integers(2, 5))
@@ -548,7 +689,9 @@ def parts(tier):
             Part("included_at_parent_merges", evaluate, strategy=st_case_merges, examples=4000 * k,
                  note="merge commits in the parent repository; 'first build' = every build that ships the component build while "
                       "none of its ancestor builds does"),
-            Part("dependency_graphs", evaluate, strategy=st_graph, examples=3000 * k)]
+            Part("dependency_graphs", evaluate, strategy=st_graph, examples=3000 * k),
+            Part("time_spread", evaluate, strategy=lambda: st_time_spread().filter(lambda c: c is not None), examples=1500 * k,
+                 note="metamorphic: the same two-level history with all commit times inside an hour and spread over up to 20 days")]
 
 
 TECHNIQUE = "model-based property testing (Hypothesis): generated component / parent histories with version pins on an in-memory git back-end, compared with a set-based reference of 'first parent build that ships the component build'; generated dependency graphs for the analysis order"
